@@ -138,6 +138,7 @@ def compile_run_case(root: str, name: str, main: str, files: dict[str, str], obs
             continue  # later incremental steps
         _write(os.path.join(tmp, rel), text + "\n")
     _write(os.path.join(tmp, "native.py"), main + "\n")
+    _write(os.path.join(tmp, "interpreted.py"), main + "\n")  # test_run writes the interpreted twin next to it
     shutil.copyfile(TESTUTIL_PATH, os.path.join(tmp, "testutil.py"))
     os.chdir(tmp)
 
